@@ -877,6 +877,8 @@ pub fn same(a: &RVal, b: &RVal) -> bool {
     (Builtin(x), Builtin(y)) => x == y,
     (Range(a1, b1, c1, d1), Range(a2, b2, c2, d2)) => a1 == a2 && d1 == d2 && same(b1, b2) && same(c1, c2),
     (Unary(o1, x), Unary(o2, y)) => o1 == o2 && same(x, y),
+    (Approx(x), Approx(y)) => x == y,
+    (NumLit(a, x), NumLit(b, y)) => a == b && x == y,
     _ => false,
   }
 }
